@@ -68,8 +68,8 @@ def _eval(table, v):
     return hit[0]
 
 
-def ladder(ctx, path, kind):
-    R = "C11.1"
+def ladder(ctx, path, kind, rule="C11.1"):
+    R = rule
     b = U.body(ctx, R, path)
     if not b:
         return None
